@@ -17,10 +17,10 @@ Cases == JsonDeserialize(IOEnv.CASES).cases
 VARIABLES inst, st
 
 Moves(S, s) ==
-  {[id |-> "POP", k |-> 0]}
-  \cup {[id |-> "DUP", k |-> k] : k \in 1..(IF Len(s.stack) < 16 THEN Len(s.stack) ELSE 16)}
-  \cup {[id |-> "SWAP", k |-> k] : k \in 1..(IF Len(s.stack) - 1 < 16 THEN Len(s.stack) - 1 ELSE 16)}
-  \cup {[id |-> S.ins[i].id, k |-> 0] : i \in 1..Len(S.ins)}
+  {[id |-> "POP", k |-> 0, c |-> ""]}
+  \cup {[id |-> "DUP", k |-> k, c |-> ""] : k \in 1..(IF Len(s.stack) < 16 THEN Len(s.stack) ELSE 16)}
+  \cup {[id |-> "SWAP", k |-> k, c |-> ""] : k \in 1..(IF Len(s.stack) - 1 < 16 THEN Len(s.stack) - 1 ELSE 16)}
+  \cup {[id |-> S.ins[i].id, k |-> 0, c |-> ""] : i \in 1..Len(S.ins)}
 
 Init == inst \in 1..Len(Cases) /\ st = Start(Cases[inst].sfs)
 Next ==
